@@ -29,13 +29,14 @@ func main() {
 		r.SetRule("case = one fault scenario: (operation or pipeline, input, sequence of 1-3 faults; goroutine-backed: x repetition under a fresh perturbation table). " +
 			"evaluations = scenarios executed and judged. non-trivial = a planned fault was actually reached (the fatal fault fired and E was due, " +
 			"or at least one consumer call failed and was retried, or a reducer met the injected error); " +
-			"distinct_nontrivial = distinct (operation, fault kind, position class {first, middle, last, at-end; for per-call contexts first/later}, " +
+			"distinct_nontrivial = distinct (operation, fault kind [fatal kinds qualified by the error VALUE when it is not the sentinel: context.Canceled, an error wrapping it, context.DeadlineExceeded, an error wrapping stream.End], position class {first, middle, last, at-end; for per-call contexts first/later}, " +
 			"buffered-state-non-empty?) tuples over the faults of non-trivial scenarios, where buffered-state-non-empty means: when the fault hit, " +
 			"the sources had handed out more items than the consumer had received (caller-goroutine part; the goroutine-backed part uses the same test at the first failed consumer call).")
 		r.Assume("a source that fails a Next call (dead context, transient error) has consumed nothing (vkit.ProbeStream honours ctx before consuming)")
 		r.Assume("user callbacks never fail in transient scenarios: by the statement a callback failure is the fatal kind, and what a retry after it does is not judged")
 		r.Assume("stream.Runs is consumed as documented: every inner stream is drained to its End before the outer stream is asked again; a failed call is retried on the same stream")
 		r.Assume("same/eq arguments are equivalence relations")
+		r.Assume("a source signals the normal end by returning stream.End itself; an error that merely wraps stream.End is a failure and must be reported as such")
 		if r.VariantHas("conc") {
 			concurrent(r)
 			return
